@@ -71,6 +71,47 @@ pub fn panic_site(msg: &str) -> String {
 }
 
 // ---------------------------------------------------------------------------------------
+// ambient logging: a logger that accepts everything and formats every record into a counter
+
+struct SinkLogger;
+static LOG_RECORDS: std::sync::atomic::AtomicU64 = std::sync::atomic::AtomicU64::new(0);
+
+impl log::Log for SinkLogger {
+    fn enabled(&self, _m: &log::Metadata) -> bool {
+        true
+    }
+    fn log(&self, record: &log::Record) {
+        use std::fmt::Write;
+        struct Count(usize);
+        impl std::fmt::Write for Count {
+            fn write_str(&mut self, s: &str) -> std::fmt::Result {
+                self.0 += s.len();
+                Ok(())
+            }
+        }
+        let mut c = Count(0);
+        let _ = write!(c, "{}", record.args());
+        LOG_RECORDS.fetch_add(1, std::sync::atomic::Ordering::Relaxed);
+    }
+    fn flush(&self) {}
+}
+
+static SINK_LOGGER: SinkLogger = SinkLogger;
+
+pub fn install_logger() {
+    let _ = log::set_logger(&SINK_LOGGER);
+    log::set_max_level(log::LevelFilter::Off);
+}
+
+pub fn set_logging(on: bool) {
+    log::set_max_level(if on { log::LevelFilter::Trace } else { log::LevelFilter::Off });
+}
+
+pub fn log_records() -> u64 {
+    LOG_RECORDS.load(std::sync::atomic::Ordering::Relaxed)
+}
+
+// ---------------------------------------------------------------------------------------
 // heap monitor
 
 #[cfg(feature = "count-alloc")]
